@@ -33,6 +33,21 @@ CLAIMED = {
         "Wire decoding and gRPC semantics are not claimed.",
         "Trusted: jinja2 parser, ast; grpc / api_core behaviour.",
         "DESIGN.md 4/C03"),
+    "C05": (
+        "signature / dominance / per-shape application rules on client skeletons + ast pattern checks of _fields_mapping",
+        "Decides that flattened parameters are keyword-only in declared order, that the ValueError check tests `is not None` "
+        "over all flattened parameters and dominates the call and every request write (skeleton CFG), and that every "
+        "flattened field is applied exactly once under the right guard in each feasible (repeated, map, package) shape, in "
+        "both siblings. Wire equality of the two calling styles per value is not claimed.",
+        "Trusted: jinja2 parser, ast; proto-plus field assignment semantics.",
+        "DESIGN.md 4/C05"),
+    "C09": (
+        "key->field->slot tables: ast pattern matching of _get_retry_and_timeout + keyword slots of wrapped-method tables",
+        "Decides the selector and first-match lookup, the service-config key to RetryInfo field table, unit conversion, the "
+        "hand-over to Method(retry=, timeout=), and that every api_core Retry / wrap_method keyword in the sync and async "
+        "transport tables is fed from the matching accessor under the matching guard. Retry timing is api_core's and is not claimed.",
+        "Trusted: api_core Retry keyword semantics; grpc service_config RetryPolicy key names.",
+        "DESIGN.md 4/C09"),
     "C10": (
         "order-taint dataflow over Python ast + typed template access paths; call-graph reachability of ambient inputs",
         "Whole property under the stated container assumption: every set-derived order is sorted with an injective key "
